@@ -90,6 +90,39 @@ def l3_docs():
     return list(shapes) + [a + "\n" + b for a in shapes for b in shapes]
 
 
+def container_tail_docs():
+    """Container, k lines empty inside it, m blank lines outside, a following block (Alphabets.tla: TailHeads x
+    TailEmpties^k x blank^m x TailTails, k <= 3, m <= 2)."""
+    heads, emps, tails = alphabet("TailHeads"), alphabet("TailEmpties"), alphabet("TailTails")
+    out = []
+    for h in heads:
+        for e in emps:
+            for k in range(0, 4):
+                for m in range(0, 3):
+                    for t in tails:
+                        ls = h.split("\n") + [e] * k + [""] * m + ([t] if t else [])
+                        out.append("\n".join(ls) + "\n")
+                        if k >= 2:     # the empties need not be spelled alike
+                            ls2 = h.split("\n") + [e] + [emps[0]] * (k - 1) + [""] * m + ([t] if t else [])
+                            out.append("\n".join(ls2) + "\n")
+    return sorted(set(out))
+
+
+def fence_docs():
+    """Fenced blocks with fence-like lines in the body (Alphabets.tla: FenceOpen x FenceBody^(1..2) x closer)."""
+    ops, body = alphabet("FenceOpen"), alphabet("FenceBody")
+    out = []
+    for o in ops:
+        run = o.rstrip(" i")
+        for b1 in body:
+            for b2 in [None] + list(body):
+                for cl in (run, "", run[:-1], run + run[0]):
+                    ls = [o, b1] + ([b2] if b2 is not None else []) + ([cl] if cl else [])
+                    out.append("\n".join(ls) + "\n")
+                    out.append("\n".join(ls + ["tail"]) + "\n")
+    return sorted(set(out))
+
+
 def sample(items, n, seed, keep_short=0):
     """Deterministic subsample; the `keep_short` shortest items are always kept."""
     items = list(items)
